@@ -9,7 +9,7 @@
    Weights, biases and activation are universally quantified with no shape hypothesis (a missing row is an absent
    output): the masks are applied at evaluation ([where_mask] inside [masked_mlp], as [unwrap] does before every
    method), hence "training cannot un-mask". *)
-From Coq Require Import List ZArith Bool Arith.
+From Coq Require Import List ZArith Bool Arith Lia.
 From FJ Require Import Model.Masks Proofs.MasksP.
 Import ListNotations.
 
@@ -128,6 +128,82 @@ Theorem C09_bnaf_triangular :
 Proof. exact @bnaf_triangular. Qed.
 Print Assumptions C09_bnaf_triangular.
 
+(* ... and strictly positive diagonal, stated without calculus: y_i is STRICTLY INCREASING in x_i (x_j, j > i, may change
+   arbitrarily at the same time), over any ordered carrier (lt transitive, add strictly monotone in both arguments,
+   multiplication by a positive weight strictly monotone), for every strictly increasing activation, all depths and
+   block sizes, all well-shaped weights whose diagonal-block entries are positive (what softplus + weight normalisation
+   with a positive scale deliver; tied numerically), any condition term.
+   _partial: the property's "Jacobian diagonal > 0" follows from this only where the activation is differentiable with a
+   positive derivative; the derivative form is not proved. *)
+Theorem C09_bnaf_monotone_partial :
+  forall (A : Type) (zero : A) (add mul : A -> A -> A) (lt : A -> A -> Prop),
+    (forall a : A, mul zero a = zero) ->
+    (forall a b c : A, lt a b -> lt b c -> lt a c) ->
+    (forall a a' b : A, lt a a' -> lt (add a b) (add a' b)) ->
+    (forall a b b' : A, lt b b' -> lt (add a b) (add a b')) ->
+    (forall w a a' : A, lt zero w -> lt a a' -> lt (mul w a) (mul w a')) ->
+  forall act : A -> A, (forall a a' : A, lt a a' -> lt (act a) (act a')) ->
+  forall (dim depth bd : nat) (ws : list (list (list A))) (bs : list (list A)) (cterm : option (list A))
+         (x x' : list A) (i : nat) (a a' : A),
+    (0 < bd)%nat -> (i < dim)%nat -> length x = dim -> length x' = dim ->
+    layers_good zero lt dim (bnaf_block_shapes depth bd) ws bs ->
+    match cterm with Some t => (bd * dim <= length t)%nat | None => True end ->
+    (forall j : nat, (j < i)%nat -> nth_error x j = nth_error x' j) ->
+    nth_error x i = Some a -> nth_error x' i = Some a' -> lt a a' ->
+    exists y y' : A,
+      nth_error (bnaf_transform zero add mul dim depth bd ws bs act cterm x) i = Some y /\
+      nth_error (bnaf_transform zero add mul dim depth bd ws bs act cterm x') i = Some y' /\ lt y y'.
+Proof. exact @bnaf_monotone. Qed.
+Print Assumptions C09_bnaf_monotone_partial.
+
+(* the block-lower-triangular mask is the rank mask (>=) of the block indices: BNAF is the same rank argument *)
+Theorem C09_block_tril_is_rank_mask :
+  forall (bh bw n r c : nat), (r < bh * n)%nat -> (c < bw * n)%nat ->
+    entry (block_tril_mask bh bw n 0) r c =
+    entry (rank_based_mask (map (fun c => Z.of_nat (c / bw)) (seq 0 (bw * n))) (map (fun r => Z.of_nat (r / bh)) (seq 0 (bh * n))) true) r c.
+Proof. exact block_tril_is_rank_mask. Qed.
+Print Assumptions C09_block_tril_is_rank_mask.
+
+(* ---------- masks live in Where wrappers applied at every evaluation: training cannot un-mask ---------- *)
+Theorem C09_where_survives_update :
+  forall (A : Type) (zero : A) (m : list (list bool)) (w : list (list A)) (r c : nat) (v : A),
+    entry m r c = Some false -> entry (where_mask zero m w) r c = Some v -> v = zero.
+Proof. exact @where_survives_update. Qed.
+Print Assumptions C09_where_survives_update.
+
+(* softplus on the diagonal blocks + weight normalisation keep the zeros (a*0 = 0 and 0/n = 0: finite scale, finite
+   non-zero row norm in floats) *)
+Theorem C09_bnaf_weight_zero_off_mask :
+  forall (A : Type) (zero : A) (mul : A -> A -> A) (sp : A -> A) (norm : list A -> A) (div : A -> A -> A),
+    (forall a : A, mul a zero = zero) -> (forall a : A, div zero a = zero) ->
+  forall (tril diag : list (list bool)) (w1 w2 : list (list A)) (scale_raw : list A) (r c : nat) (v : A),
+    entry tril r c = Some false -> entry diag r c = Some false ->
+    entry (bnaf_weight zero mul sp norm div tril diag w1 w2 scale_raw) r c = Some v -> v = zero.
+Proof. exact @bnaf_weight_zero_off_mask. Qed.
+Print Assumptions C09_bnaf_weight_zero_off_mask.
+
+(* ---------- the model's reachability matrix (what the tie compares jax.jacobian sparsity with) ---------- *)
+(* reach[o][j] = true exactly when an all-true mask path j -> o exists ... *)
+Theorem C09_reach_connected :
+  forall (m0 : list (list bool)) (rest : list (list (list bool))) (nc j o : nat),
+    Forall (fun row => length row = nc) m0 -> (j < nc)%nat ->
+    (entry (reach (m0 :: rest) nc) o j = Some true <-> connected (m0 :: rest) j o).
+Proof. exact reach_connected. Qed.
+Print Assumptions C09_reach_connected.
+
+(* ... and reach[o][j] = false means output o is independent of input j for ALL weights, biases, activations
+   (any well-chained mask list; the masks of masked_autoregressive_mlp are well chained: mlp_masks_chained) *)
+Theorem C09_reach_false_independent :
+  forall (A : Type) (zero : A) (add mul : A -> A -> A), (forall a : A, mul zero a = zero) ->
+  forall (act : A -> A) (m0 : list (list bool)) (rest : list (list (list bool))) (nc : nat)
+         (ws : list (list (list A))) (bs : list (list A)) (x x' : list A) (j o : nat),
+    Forall (fun row => length row = nc) m0 -> chained (length m0) rest -> (j < nc)%nat ->
+    length x = length x' -> (forall i : nat, i <> j -> nth_error x i = nth_error x' i) ->
+    entry (reach (m0 :: rest) nc) o j = Some false ->
+    nth_error (masked_mlp zero add mul ws bs (m0 :: rest) act x) o = nth_error (masked_mlp zero add mul ws bs (m0 :: rest) act x') o.
+Proof. exact @reach_false_independent. Qed.
+Print Assumptions C09_reach_false_independent.
+
 (* ---------- non-vacuity ---------- *)
 Open Scope Z_scope.
 (* dim 3, width 2, depth 1, one parameter per coordinate, integer weights: the network produces 3 outputs; changing
@@ -153,3 +229,29 @@ Example C09_example_missing_when_narrow :
   maf_param_dep 3 None 1 1 1 = [[false; false; false]; [true; false; false]; [true; false; false]] /\
   maf_param_dep 3 None 2 1 1 = [[false; false; false]; [true; false; false]; [true; true; false]].
 Proof. vm_compute. split; reflexivity. Qed.
+
+(* BNAF over Z (an ordered carrier), dim 2, depth 1, block_dim 2, activation v -> 2v+1: the hypotheses of
+   C09_bnaf_monotone_partial are satisfiable (layers_good holds) and the conclusion is visible: raising x_0 raises y_0;
+   y_0 ignores x_1; raising x_1 raises y_1.  Entries above the block diagonal are non-zero in the RAW weights. *)
+Definition exb_ws : list (list (list Z)) := [[[2; 9]; [1; -7]; [-3; 4]; [5; 6]]; [[1; 2; 8; -8]; [-1; 3; 2; 1]]].
+Definition exb_bs : list (list Z) := [[0; 1; -1; 2]; [5; -5]].
+Definition exb_net (x : list Z) : list Z := bnaf_transform 0 Z.add Z.mul 2 1 2 exb_ws exb_bs (fun v => 2 * v + 1) (Some [1; 0; -2; 3]) x.
+Example C09_example_bnaf_good : layers_good 0 Z.lt 2 (bnaf_block_shapes 1 2) exb_ws exb_bs.
+Proof.
+  cbn [bnaf_block_shapes repeat app layers_good hd tl fst snd exb_ws exb_bs length Nat.mul Nat.add].
+  repeat split; try lia; try (repeat constructor).
+  - intros r c v He Hd.
+    do 5 (destruct r as [|r]; [do 3 (destruct c as [|c]; [cbn in He, Hd; try discriminate; try (injection He as <-; lia)|]); destruct c; discriminate|]).
+    destruct c; discriminate.
+  - intros r c v He Hd.
+    do 3 (destruct r as [|r]; [do 5 (destruct c as [|c]; [cbn in He, Hd; try discriminate; try (injection He as <-; lia)|]); destruct c; discriminate|]).
+    destruct c; discriminate.
+Qed.
+Example C09_example_bnaf_values :
+  exb_net [1; 1] = [26; 51] /\ exb_net [1; 100] = [26; 4803] /\ exb_net [2; 1] = [38; 47].
+Proof. vm_compute. repeat split; reflexivity. Qed.
+(* reachability of the example masks: coordinate 2's parameters cannot be reached from x_2; theorem
+   C09_reach_false_independent applies (entry = Some false) *)
+Example C09_example_reach :
+  reach (maf_masks 3 None 2 1 1) 3 = [[false; false; false]; [true; false; false]; [true; true; false]].
+Proof. vm_compute. reflexivity. Qed.
